@@ -25,6 +25,8 @@ def real(t):
 def cell_json(c):
     if c["k"] == "n":
         return None
+    if c["k"] == "f":
+        return float(c["t"])
     return int(c["t"]) if c["k"] == "i" else real(c["t"])
 
 
@@ -46,7 +48,12 @@ def same_shape(P, R):
 
 def kinds_of(kinds, rows):
     n = len(rows[0]) if rows else len(kinds)
-    return (kinds + ["s"])[:n] if n > len(kinds) else kinds[:n]
+    ks = (kinds + ["s"])[:n] if n > len(kinds) else kinds[:n]
+    for j in range(len(ks)):                      # a retyped column: the kind follows the cells
+        cellk = {r[j]["k"] for r in rows if r[j]["k"] != "n"}
+        if len(cellk) == 1 and ks[j] in ("i", "f") and next(iter(cellk)) in ("i", "f"):
+            ks[j] = next(iter(cellk))
+    return ks
 
 
 def gen_verify(ctx):
@@ -193,7 +200,7 @@ def run(ctx):
     muts = {}
     for c in vcases:
         muts[c["mut"]] = muts.get(c["mut"], 0) + 1
-    for m in ("same", "cell", "droprow", "duprow", "swap", "dropcol", "addcol"):
+    for m in ("same", "cell", "droprow", "duprow", "swap", "dropcol", "addcol", "retype"):
         if not muts.get(m):
             raise ToolError(f"vacuity: no case with mutation {m}")
     n1, v1, s1, drift, nfiles, rt = check_verify(ctx, vcases)
